@@ -90,8 +90,9 @@ ASSUMPTIONS = [
     "contract_multi, min()/max() (documented as approximations, not in the statement)",
     "purity is judged on digests of the stored vectors (bytes), dtype and shape, for all live carriers and all "
     "operands ever passed (arrays, lists of arrays, sparse matrices, index arrays)",
-    "a carrier added to itself in place is run under a 0.4 s CPU-time guard (ITIMER_VIRTUAL); reaching the guard "
-    "is reported as non-termination",
+    "a carrier added to itself in place is run under a 0.4 s CPU-time guard (ITIMER_VIRTUAL), every other operation "
+    "under a 3 s CPU-time guard (a conforming operation on <= 7x7 data needs milliseconds; CPU time does not depend "
+    "on the machine load); reaching the guard is reported as <operation>/does-not-terminate",
     "sparse operands: csr/csc/coo_matrix, csr/csc_array (coo_array only in contract_multi: scipy 1.18 returns a 0-d "
     "scalar for vector @ coo_array((n,1)), which is not pyMOTO's doing)",
     "mechanism names are <public operation>/<what is wrong>; the workload variant (e.g. g_row, contract_batch_all) is "
@@ -199,6 +200,30 @@ def _label(op):
 
 class _Guard(BaseException):
     pass
+
+
+GUARD_S = 3.0     # CPU seconds granted to one operation (a conforming one needs milliseconds)
+
+
+class _cpu_guard:
+    """raise _Guard inside the block once it has used `seconds` of CPU time (ITIMER_VIRTUAL: independent of the
+    machine load and of the shard's SIGALRM wall-clock watchdog)"""
+
+    def __init__(self, seconds):
+        self.seconds = seconds
+
+    @staticmethod
+    def _fire(*_):
+        raise _Guard()
+
+    def __enter__(self):
+        self.old = signal.signal(signal.SIGVTALRM, self._fire)
+        signal.setitimer(signal.ITIMER_VIRTUAL, self.seconds)
+
+    def __exit__(self, *exc):
+        signal.setitimer(signal.ITIMER_VIRTUAL, 0)
+        signal.signal(signal.SIGVTALRM, self.old)
+        return False
 
 
 class Reg:
@@ -531,7 +556,18 @@ class Prog:
         self.last_partner = None
         self.trace.append(op)
         self.cur = op
-        ok = getattr(self, "op_" + op)(r)
+        try:
+            with _cpu_guard(GUARD_S):
+                ok = getattr(self, "op_" + op)(r)
+        except _Guard:
+            for q in self.regs:       # release whatever the runaway operation piled up
+                try:
+                    q.D.u.clear()
+                    q.D.v.clear()
+                except Exception:
+                    pass
+            self.regs.clear()
+            raise Violation(f"{_label(op)}/does-not-terminate", variant=op, cpu_guard_s=GUARD_S, trace=self.trace[-6:])
         if ok is False:
             self.trace.pop()
             return False
@@ -1051,18 +1087,11 @@ def _corner(name, pym, ctx):
     A = sum(np.outer(np.abs(u), np.abs(v)) for u, v in zip(us, vs))
     P.check("construct", D, M, A)
     if name in ("iadd_self", "isub_self"):
-        def handler(*_):
-            raise _Guard()
-        old = signal.signal(signal.SIGVTALRM, handler)
-        signal.setitimer(signal.ITIMER_VIRTUAL, 0.4)
         done = False
         try:
-            try:
+            with _cpu_guard(0.4):
                 D2 = operator.iadd(D, D) if name == "iadd_self" else operator.isub(D, D)
                 done = True
-            finally:
-                signal.setitimer(signal.ITIMER_VIRTUAL, 0)
-                signal.signal(signal.SIGVTALRM, old)
         except _Guard:
             pass
         if not done:
